@@ -130,7 +130,7 @@ def main(argv):
         rp = os.path.join(VERIF, 'replays', '%s.%s.json' % (prop, re.sub(r'[^A-Za-z0-9_.-]', '_', j['id'] + '.' + (o['name'] or 'x'))))
         rec = {'property': prop, 'job': j['id'], 'obligation': o['name'], 'description': o['desc'], 'location': o['loc'], 'entry': j['entry'],
                'inputs': o.get('trace', {}), 'verifier_log': r['log'], 'repo': REPO}
-        nat = native.replay(j, o, gendir, build, REPO) if j.get('native') else {'status': 'no-adapter', 'detail': 'obligation is checked under contract abstraction / symbolic memory; no native adapter for this harness'}
+        nat = native.replay(j, o, gendir, build, REPO) if j.get('native') else native.replay_api(j, build, REPO) if j.get('native_api') else {'status': 'no-adapter', 'detail': 'obligation is checked under contract abstraction / symbolic memory; no native adapter for this harness'}
         rec['native_replay'] = nat
         json.dump(rec, open(rp, 'w'), indent=1)
         tail = '' if nat.get('status') == 'reproduced' else ' no-failing-input-found'
